@@ -1,8 +1,9 @@
 #!/bin/bash
-# Runs seeded changes against their target property's quick check (scratch worktrees; /repo untouched).
+# Runs seeded changes against their target property's quick check - and against the property named in seeded/CROSS.txt
+# where the change (labelled by its author with one property) really breaks another one (scratch worktrees; /repo untouched).
 # usage: tools/seeded_matrix.sh [parallelism] [glob-of-variants, default all] [outfile]
 cd /verif
 P=${1:-4}; G=${2:-"seeded/C??-?"}; OUT=${3:-seeded/RESULTS.txt}
-ls -d $G | xargs -P $P -I{} bash -c 'd={}; id=$(basename $d | cut -d- -f1); tools/try_patch.sh $d/patch.diff $id 2>&1 | tail -1' | sort > $OUT
+ls -d $G | xargs -P $P -I{} bash -c 'd={}; n=$(basename $d); id=${n%-*}; extra=$(grep "^$n " seeded/CROSS.txt | cut -d" " -f2); tools/try_patch.sh $d/patch.diff $id $extra 2>&1 | grep "patch.diff" | tr "\n" ";"; echo' | sort > $OUT
 cat $OUT
 echo "caught: $(grep -c "rc=1" $OUT) / $(wc -l < $OUT)"
